@@ -473,3 +473,11 @@ pub fn neg_bounded_fixpoint(mut x: u64, n: usize) -> u64 {
 pub fn step(x: u64) -> u64 {
     x / 2
 }
+
+// ---------------------------------------------------------------- R13.15 overflowing operations on native integers
+pub fn pos_neg_of_native_int(x: &isize) -> isize {
+    -x
+}
+pub fn neg_checked_neg(x: &isize) -> Option<isize> {
+    x.checked_neg()
+}
